@@ -101,6 +101,10 @@ def gen_run(rng, cfg):
             pool.append(list(rng.choice(cfg["corpus"])[1]))
         else:
             pool.append(list(rng.choice(W.STATEFUL_SNIPPETS)))
+    if cfg.get("long_corpus") and rng.random() < cfg.get("long_fraction", 0.0):
+        # thorough tier: one long real-world input in the pool (cut short or aborted often)
+        pool.append(list(rng.choice(cfg["long_corpus"])[1]))
+        n_ops = min(n_ops, 8)
     fault_rate = rng.choice([0.25, 0.4, 0.6]) if faulty else 0.0
     ops = []
     dirty = False  # previous op failed / was aborted: follow with a probe more often
